@@ -14,8 +14,9 @@
 
     resource  deterministic witnesses for the resource clause ("does not run or allocate beyond a small multiple of
               what the input size warrants"), each with the bound its handler enforces (harness/cmd/entry/fam_big.go):
-                alias    n line pointers to ONE tuple: ReadTuples reports n·len(tuple) bytes out of one 8 KiB page
-                         (open finding C10-page-alias, tag kf:C10-page-alias; MODEL reproduces it)
+                alias    n line pointers to ONE tuple: before fixes/heap/02 ReadTuples reported n·len(tuple) bytes out
+                         of one 8 KiB page (finding C10-page-alias, now fixed): MODEL = SPEC = ok — no more tuple data than
+                         the file holds (Props.C10.Isolation.C10_size_readTuples) and ReadRows within the allocation bound
                 zbomb    deflate bomb (1032:1) reaching the zlib fallback of ReassembleTOAST, behind a pointer declaring
                          5 bytes (cut there since fixes/toast/20) and behind one declaring 0xFFFFFFFF (cut at 255 bytes per
                          stored byte since fixes/toast/22; 20 alone left 203 MB / 1.2 GB allocated: REVIEW2 #1)
@@ -228,7 +229,8 @@ def deepJsonb (depth : Nat) : Bytes :=
 
 def totalTupleBytes (es : List Model.TupleEntry) : Nat := (es.map fun e => e.tuple.data.length).foldl (· + ·) 0
 
-/-- the observable of the alias cases: "amplified" when ReadTuples reports more tuple data bytes than the file has -/
+/-- the observable of the alias cases: "amplified" when ReadTuples reports more tuple data bytes than the file has
+(impossible since fixes/heap/02: `Props.C10.Isolation.C10_size_readTuples`) -/
 def aliasModel (file : Bytes) : String :=
   match Model.readTuples file false with
   | .ok es => if totalTupleBytes es > file.length then s!"amplified:{es.length}" else "ok"
@@ -238,11 +240,11 @@ def nResource : Nat := 14
 
 /-- case `i` (built on demand: some of them take seconds to build) -/
 def resourceCase (i : Nat) : List String × List String :=
-  let kf := ["kf:C10-page-alias", "nt"]
+  -- cases 0-2: the witnesses of finding C10-page-alias (repaired by fixes/heap/02; no kf tag any more: MODEL = SPEC = ok)
   match i with
-  | 0 => (kf, ["alias", hexRle (aliasPage 256 nullArrDatum), "1007"])
-  | 1 => (kf, ["alias", hexRle (aliasPage 1021 textDatum), "25"])
-  | 2 => (kf, ["alias", hexRle (repeatTo bigLen (aliasPage 1021 textDatum)), "25"])
+  | 0 => (["nt", "alias=256"], ["alias", hexRle (aliasPage 256 nullArrDatum), "1007"])
+  | 1 => (["nt", "alias=1021"], ["alias", hexRle (aliasPage 1021 textDatum), "25"])
+  | 2 => (["nt", "alias=1021x32"], ["alias", hexRle (repeatTo bigLen (aliasPage 1021 textDatum)), "25"])
   | 3 => (["nt"], ["alias", hexRle (aliasPage 1 textDatum), "25"])
   | 4 => (["nt"], ["reasm", "zbomb", hexRle (extPtr 5 0 1 0), hexRle (zbombStream ())])
   | 5 => (["nt"], ["reasm", "lz4amp", hexRle (extPtr 0xFFFFFFFF (2 ^ 30 + 262125) 1 0), hexRle (zeros 4 ++ lz4AmpStream 262115)])
